@@ -5,6 +5,7 @@ import NmVerif.Lemmas.LinalgList
 import NmVerif.Lemmas.LinalgMatmul
 import NmVerif.Lemmas.LinalgMatmulV2
 import NmVerif.Lemmas.LinalgDot
+import NmVerif.Lemmas.LinalgTrace
 /-
   C16 — Linear-algebra routines equal their mathematical definitions.
   Only property statements (+ non-vacuity examples, counterexample theorems) live here; the proofs are in
@@ -120,5 +121,34 @@ theorem vecdot_eq_def (sa sb : Shape) (s : Arr (List Term)) (ha : 1 ≤ sa.lengt
 example : (specVecdot [2, 1, 3] [4, 3]).map (·.shape) = some [2, 4] := by decide
 example : (specVecdot [2, 1, 3] [4, 3]).map (·.get [1, 2]) =
     some [([1, 0, 0], [2, 0]), ([1, 0, 1], [2, 1]), ([1, 0, 2], [2, 2])] := by decide
+
+/-! ### trace -/
+
+/-- `view::trace(a, offset, axis1, axis2)` = `np.trace` for every rank ≥ 2, every pair of distinct axes (negative
+    spellings included), every offset `0 ≤ offset < extent(axis2)` (non-empty diagonal): the two axes are removed from
+    the shape and `out[rest] = Σ_i a[rest; axis1 = i, axis2 = i + offset]`, `i = 0 … min(n1, n2-offset)-1` in order;
+    every read is inside the operand.  (Model elements are the buffer positions read, `some (row-major offset)`.) -/
+theorem trace_eq_def (s : Shape) (off : Int) (a1 a2 : Int) (ax1 ax2 n1 n2 : Nat)
+    (hax1 : normAxis a1 s.length = some ax1) (hax2 : normAxis a2 s.length = some ax2)
+    (h12 : ax1 ≠ ax2) (hn1 : s[ax1]? = some n1) (hn2 : s[ax2]? = some n2)
+    (hoff : 0 ≤ off) (hne : off < n2) (hn1pos : 0 < n1) :
+    ∃ r sp, trace s off a1 a2 = some r ∧ specTrace s off ax1 ax2 = some sp ∧ r.shape = sp.shape ∧
+      ∀ d, InShape d sp.shape →
+        r.get d = (sp.get d).map (fun i => some (computeOffset i (strides s))) ∧ ∀ i ∈ sp.get d, InShape i s :=
+  trace_eq_spec s off a1 a2 ax1 ax2 n1 n2 hax1 hax2 h12 hn1 hn2 hoff hne hn1pos
+
+example : normAxis (-1) 3 = some 2 ∧ normAxis 0 3 = some 0 ∧ [2, 3, 4][2]? = some 4 ∧ [2, 3, 4][0]? = some 2 := by decide
+example : (specTrace [2, 3, 4] 1 2 0).map (·.shape) = some [3] := by decide
+example : (specTrace [2, 3, 4] 1 2 0).map (·.get [2]) = some [[1, 2, 0]] := by decide
+example : (specTrace [3, 4] 1 0 1).map (·.get []) = some [[0, 1], [1, 2], [2, 3]] := by decide
+
+/-- the unchanged `index::diagonal` puts `i + offset` on axis2 also when the offset is negative (known finding
+    trace.negative-offset): for a (2,3,3) operand, offset -1 over axes (1,2) the first element is read out of range
+    (`none`) and the second element silently sums the buffer positions 8, 12 where NumPy sums a[1,1,0], a[1,2,1] = 12, 16 -/
+theorem trace_negative_offset_counterexample :
+    (trace [2, 3, 3] (-1) 1 2).map (fun r => (r.shape, r.get [0], r.get [1])) =
+      some ([2], [none, some 3], [some 8, some 12]) ∧
+    (specTrace [2, 3, 3] (-1) 1 2).map (fun r => (r.shape, (r.get [1]).map (fun i => computeOffset i (strides [2, 3, 3])))) =
+      some ([2], [12, 16]) := by decide
 
 end NmVerif.Props.C16
